@@ -48,26 +48,39 @@ def main(argv=None):
     spread_kw = {"Normal": "sigma", "Gamma": "shape", "NegBinom": "k"}
     rnd = np.random.RandomState(4000 + run.seed)
     extra = [round(float(v), 3) for v in rnd.uniform(0.2, 30.0, size=2)]
-    for cname, cls in classes.items():
+    # three blocks per class: the ordinary grid; the same with INTEGER-typed observation arrays (whole-number observations,
+    # non-whole spreads); a large regime (counts and dispersion in the hundreds / thousands, where naive formulas overflow)
+    big_y = {"Poisson": [150.0, 600.0, 2000.0], "NegBinom": [150.0, 600.0, 2000.0], "Normal": [1.0e3, 2.5e5], "Gamma": [1.0e3, 2.5e5], "Square": [1.0e3, 2.5e5]}
+    big_m = {"Poisson": [180.0, 650.0, 2100.0], "NegBinom": [180.0, 650.0, 2100.0], "Normal": [1.1e3, 2.4e5], "Gamma": [1.1e3, 2.4e5], "Square": [1.1e3, 2.4e5]}
+    big_s = {"NegBinom": [300.5, 600.0, 5000.0], "Normal": [50.5, 3000.0], "Gamma": [45.5, 300.0]}
+    blocks = []
+    for cname in classes:
         ys = Y_COUNT if cname in ("Poisson", "NegBinom") else Y_CONT + extra[:1]
-        pairs = [(a, b) for a in ys for b in YHAT + extra[1:]]
+        blocks.append((cname, ys, YHAT + extra[1:], SPREADS, float, "grid"))
+        blocks.append((cname, [v for v in ys if float(v).is_integer()], YHAT, SPREADS, int, "integer-typed-y"))
+        blocks.append((cname, big_y[cname], big_m[cname], big_s.get(cname, SPREADS), float, "large"))
+    for cname, ys, yhats, spreads_here, ydtype, bname in blocks:
+        cls = classes[cname]
+        run.count("block:" + bname)
+        pairs = [(a, b) for a in ys for b in yhats]
         yv = np.array([p[0] for p in pairs])
         mv = np.array([p[1] for p in pairs])
         n = len(pairs)
         spread_opts = [None]
         if cname in spread_kw:
-            spread_opts = [("default", None)] + [("scalar", s) for s in SPREADS] + \
-                          [("per-observation", np.array([SPREADS[i % len(SPREADS)] for i in range(n)])),
-                           ("per-observation-column", np.array([SPREADS[(i + 1) % len(SPREADS)] for i in range(n)]).reshape(n, 1))]
+            SP = spreads_here
+            spread_opts = [("default", None)] + [("scalar", s) for s in SP] + \
+                          [("per-observation", np.array([SP[i % len(SP)] for i in range(n)])),
+                           ("per-observation-column", np.array([SP[(i + 1) % len(SP)] for i in range(n)]).reshape(n, 1))]
         else:
             spread_opts = [("none", None)]
         for (skind, sval) in spread_opts:
             for yshape in ("vector",):
                 for mshape in ("vector", "column"):
-                    yin = yv.copy() if yshape == "vector" else yv.copy().reshape(n, 1)
+                    yin = yv.astype(ydtype) if yshape == "vector" else yv.astype(ydtype).reshape(n, 1)
                     min_ = mv.copy() if mshape == "vector" else mv.copy().reshape(n, 1)
                     sin = None if sval is None else (sval.copy() if isinstance(sval, np.ndarray) else sval)
-                    sig = {"class": cname, "spread": skind, "y": yshape, "yhat": mshape}
+                    sig = {"class": cname, "spread": skind, "y": yshape, "yhat": mshape, "block": bname}
                     case = {"class": cname, "spread": skind if sval is None or isinstance(sval, np.ndarray) else sval,
                             "y_shape": yshape, "yhat_shape": mshape}
                     default = {"Normal": 1.0, "Gamma": 2.0, "NegBinom": 1.0}.get(cname, 1.0)
@@ -148,7 +161,8 @@ def main(argv=None):
         "evaluations": ncase, "distinct_nontrivial": nontriv,
         "rule": "5 kernel classes x all (y, yhat) pairs from %s (counts %s) x %s plus 2 seed-dependent values, spread in {default, %s, "
                 "per-observation vector, per-observation column}, y and yhat as vector and as single column, (n,2) inputs, weights "
-                "for Square; on one object the sequence loss, diff_loss, diff2Loss, loss, diff_loss, diff2Loss is evaluated and each "
+                "for Square; the same with integer-typed observation arrays (whole-number observations) and in a large regime (counts and "
+                "dispersion in the hundreds/thousands, continuous values up to 2.5e5); on one object the sequence loss, diff_loss, diff2Loss, loss, diff_loss, diff2Loss is evaluated and each "
                 "result compared (1e-10) with minus the log density written independently in sympy (loggamma, log) and its "
                 "first/second derivatives w.r.t. the prediction; caller arrays must stay unchanged" % (Y_CONT, Y_COUNT, YHAT, SPREADS),
         "exhaustive": True,
